@@ -765,6 +765,34 @@ def _first_enumerated(prog: Program, fi, depth: int) -> List[Optional[str]]:
     return firsts
 
 
+def _order_by_run(prog: Program, fi, name: str):
+    """The helper run by the kernel interpreter on two lists of distinct names in scrambled order: True when the
+    result is the expected one in the order of the first argument (then of the second), a description when it is not,
+    None when the interpreter cannot follow the helper."""
+    from .termalg import Key, ListV, Raised, TermAlg
+    from .termalg import Undecidable as _Und
+
+    want = {
+        "list_union": ["c", "a", "d", "b", "e", "f"],
+        "list_intersection": ["a", "b"],
+        "list_diff": ["c", "d"],
+    }.get(name)
+    if want is None:
+        return None
+    try:
+        ta = TermAlg(prog)
+        l1 = ListV([Key(n) for n in ("c", "a", "d", "b")])
+        l2 = ListV([Key(n) for n in ("b", "e", "a", "f")])
+        r = ta.call(fi, [l1, l2], {})
+        items = list(ta.iterate(r, fi.node))
+    except (AnalysisError, _Und, Raised):
+        return None
+    got = [x.name if isinstance(x, Key) else "?" for x in items]
+    if got == want:
+        return True
+    return "on [c, a, d, b] and [b, e, a, f] it returns %s, expected %s" % (got, want)
+
+
 def rule_list_helpers(ctx: Ctx, rule: str = "list-helpers") -> None:
     """utils/lists.py summarised from source: membership function and order preservation."""
     from .sets import ONES as _ONES
@@ -812,8 +840,15 @@ def rule_list_helpers(ctx: Ctx, rule: str = "list-helpers") -> None:
             continue
         # order preservation: every returned expression enumerates list1 first (comprehension over / concatenation
         # starting with the first parameter, or the first parameter itself)
-        firsts = _first_enumerated(prog, fi, 0)
         construct = "%s keeps the order of its first argument" % name
+        sem = _order_by_run(prog, fi, name)
+        if sem is True:
+            ctx.ok(rule, fi.key, construct)
+            continue
+        if isinstance(sem, str):
+            ctx.violation(rule, fi.key, construct, sem, where=fi.where)
+            continue
+        firsts = _first_enumerated(prog, fi, 0)
         if not firsts or None in firsts:
             ctx.cannot_decide(rule, fi.key, construct, "unrecognised shape")
         elif all(f == fi.params[0] for f in firsts):
